@@ -216,6 +216,18 @@ Definition checkCapability (d : db) (c : str) (f : flags) : res bool :=
         if b then catch_key (user_check u c (f_ignoreOwner f)) rest else rest
   end.
 
+(* ---- ChannelsDictionary.channels is an ircutils.IrcDict (pinned by harness/tables/t03.py, table T03c) ----
+   setChannel / getChannel lower the name with str.lower() (ASCII here) and the
+   container itself folds every key it is handed: IrcDict.key = ircutils.toLower.
+   [getChannel] above is the lookup; [setChannel] is the store, [chans_of_sets]
+   replays the setChannel calls that built a table (a later store under a name
+   that folds to the same key replaces the earlier entry). *)
+Definition ircdict_key (k : str) : str := fold k.
+Definition setChannel (t : list (str * chan)) (name : str) (c : chan) : list (str * chan) :=
+  dict_set (ircdict_key (lower name)) c t.
+Definition chans_of_sets (sets : list (str * chan)) : list (str * chan) :=
+  fold_left (fun t kv => setChannel t (fst kv) (snd kv)) sets [].
+
 (* ---- wire ---- *)
 Definition gSet (v : value) : cset := gLS v.
 Definition gUser (v : value) : user := User (gSet (nth_v 0 v)) (gB (nth_v 1 v)) (gB (nth_v 2 v)).
@@ -224,12 +236,18 @@ Definition gDb (v : value) : db :=
   Db (gO gUser (nth_v 0 v)) (gB (nth_v 1 v))
      (map (fun kv => (gS (nth_v 0 kv), gChan (nth_v 1 kv))) (gL (nth_v 2 v)))
      (gSet (nth_v 3 v)) (gSet (nth_v 4 v)) (gB (nth_v 5 v)).
+(* the same database, its channel table given as the sequence of setChannel(name, channel) calls *)
+Definition gDbSets (v : value) : db :=
+  Db (gO gUser (nth_v 0 v)) (gB (nth_v 1 v))
+     (chans_of_sets (map (fun kv => (gS (nth_v 0 kv), gChan (nth_v 1 kv))) (gL (nth_v 2 v))))
+     (gSet (nth_v 3 v)) (gSet (nth_v 4 v)) (gB (nth_v 5 v)).
 Definition gFlags (v : value) : flags := Flags (gB (nth_v 0 v)) (gB (nth_v 1 v)) (gB (nth_v 2 v)).
 
 (* run (op payload):
    0: checkCapability (db cap flags)
    1: algebra (cap) -> (isCap isChanCap isAnti makeAnti unAnti invert fold)
-   2: fold a list of cs_add over [] -> resulting set (or raise) *)
+   2: fold a list of cs_add over [] -> resulting set (or raise)
+   3: checkCapability (db cap flags), the channel table given as setChannel calls (names as spelled) *)
 Definition run (v : value) : value :=
   let p := nth_v 1 v in
   match gN (nth_v 0 v) with
@@ -239,5 +257,6 @@ Definition run (v : value) : value :=
             vR vS (makeAntiCapability c); vR vS (unAntiCapability c); vR vS (invertCapability c);
             vS (fold c)]
   | 2 => vR vLS (fold_left (fun r c => do acc <- r; cs_add acc c) (gLS p) (Ok []))
+  | 3 => vR vB (checkCapability (gDbSets (nth_v 0 p)) (gS (nth_v 1 p)) (gFlags (nth_v 2 p)))
   | _ => L []
   end.
